@@ -380,9 +380,25 @@ class G2:
         if r.random() < 0.25:
             steps.append(["Where", f"lambda e: {self.boolean(env, 1)}"])
             self.uncond = False
-        form = r.choice(["single", "tuple", "tuple", "dict", "dict", "rows", "rows", "list", "two_step", "two_step"])
+        form = r.choice(["single", "tuple", "tuple", "dict", "dict", "rows", "rows", "list", "two_step", "two_step", "value_rows"])
         cols = None
-        if form == "two_step":
+        if form == "value_rows":
+            # step 1 computes a number of the event, step 2 makes rows out of a sequence that depends on it and hands it on
+            x = self.num(env, max(1, d - 1))
+            n = self.var("n")
+            steps.append(["Select", f"lambda e: {x}"])
+            nenv = {"e": False, "objs": [], "nums": [n], "ints": []}
+            sq = self.seq_num(nenv, max(1, d - 1))
+            v = self.var("v")
+            venv = self.push_num(nenv, v)
+            flt = f".Where(lambda {v}: {self.boolean(venv, 0)})" if r.random() < 0.6 else ""
+            v2 = self.var("v")
+            venv2 = self.push_num(nenv, v2)
+            cs = [self.num(venv2, max(0, d - 2)) for _ in range(r.choice([1, 2]))] + [n]
+            steps.append(["SelectMany", f"lambda {n}: {sq}{flt}.Select(lambda {v2}: ({', '.join(cs)}))"])
+            for o in self.occ:
+                o["uncond"] = False
+        elif form == "two_step":
             # plumbing: a first Select collects sequences and numbers in a tuple or dict, an optional Where filters on them,
             # a second Select builds the columns from the parts (every part may be used several times or not at all)
             n = r.choice([2, 2, 3])
